@@ -29,7 +29,7 @@ import threading
 from . import common, threads
 from .threads import SLock, UCtx
 
-from transitions.extensions import LockedMachine, LockedHierarchicalMachine
+from transitions.extensions import LockedMachine, LockedHierarchicalMachine, LockedHierarchicalGraphMachine
 from transitions.extensions import locking as _locking
 
 
@@ -49,12 +49,21 @@ RAISE_KINDS = {True: UserErr, 'exc': UserErr, 'base': UserBase, 'kbd': KbdLike}
 
 
 FLAT_STATES = ['A', 'B', 'C']
-HSM_STATES = ['A', 'B', {'name': 'C', 'children': ['1', '2'], 'initial': '1'}]
+# the compound state C declares events of its own: they are processed INSIDE the scope of C (machine-wide
+# _stack / scoped / states / events / prefix_path are switched), so their callbacks are yield points in a nested scope
+HSM_STATES = ['A', 'B', {'name': 'C', 'children': ['1', '2'], 'initial': '1',
+                         'transitions': [['inner', '1', '2'], ['inner', '2', '1'], ['flip', '1', '2']]}]
 FLAT_TRANS = [['go', 'A', 'B'], ['go', 'B', 'C'], ['back', 'C', 'A'], ['back', 'B', 'A'], ['step', 'A', 'C']]
 HSM_TRANS = [['go', 'A', 'B'], ['go', 'B', 'C'], ['back', 'C', 'A'], ['back', 'B', 'A'], ['step', 'C_1', 'C_2']]
 EVENTS = {'flat': ['go', 'back', 'step', 'to_A', 'to_B', 'to_C'],
-          'hsm': ['go', 'back', 'step', 'to_A', 'to_B', 'to_C', 'to_C_2']}
+          'hsm': ['go', 'back', 'step', 'to_A', 'to_B', 'to_C', 'to_C_2', 'inner', 'inner', 'flip', 'to_C']}
+EVENTS['hsmg'] = EVENTS['hsm']
 STATE_NAMES = {'flat': ['A', 'B', 'C'], 'hsm': ['A', 'B', 'C', 'C_1', 'C_2']}
+STATE_NAMES['hsmg'] = STATE_NAMES['hsm']
+
+
+def is_hsm(case):
+    return case['cls'] in ('hsm', 'hsmg')
 N_SPARE = 2
 
 
@@ -82,7 +91,7 @@ def enc_ctx(c):
 
 def enc_cfg(case):
     """protocol encoding of Locked.Cfg: hsm, base, extra"""
-    out = [1 if case['cls'] == 'hsm' else 0, len(case['base'])]
+    out = [1 if is_hsm(case) else 0, len(case['base'])]
     for c in case['base']:
         out += enc_ctx(c)
     ex = [(int(m), l) for m, l in sorted(case['extras'].items(), key=lambda kv: int(kv[0])) if l]
@@ -137,12 +146,14 @@ class Run(object):
     # ---- construction (main thread, no controller) -------------------------------------------
     def build(self):
         case = self.case
-        cls = LockedHierarchicalMachine if case['cls'] == 'hsm' else LockedMachine
+        cls = {'flat': LockedMachine, 'hsm': LockedHierarchicalMachine, 'hsmg': LockedHierarchicalGraphMachine}[case['cls']]
         kw = {}
+        if case['cls'] == 'hsmg':
+            kw['graph_engine'] = 'mermaid'
         if case['base']:
             kw['machine_context'] = [self.ctx(c) for c in case['base']]
-        self.machine = cls(model=None, states=HSM_STATES if case['cls'] == 'hsm' else FLAT_STATES, initial='A',
-                           transitions=HSM_TRANS if case['cls'] == 'hsm' else FLAT_TRANS,
+        self.machine = cls(model=None, states=copy.deepcopy(HSM_STATES) if is_hsm(case) else FLAT_STATES, initial='A',
+                           transitions=HSM_TRANS if is_hsm(case) else FLAT_TRANS,
                            ignore_invalid_triggers=bool(case.get('ignore')), queued=bool(case.get('queued')),
                            prepare_event=[self.rec('P')], before_state_change=[self.rec('B')],
                            finalize_event=[self.rec('Z')], **kw)
@@ -184,12 +195,16 @@ class Run(object):
 
     def snapshot(self, how):
         """a callback persists the machine in the middle of an event (the documented way: pickle / deepcopy)"""
-        if how == 'pickle':
-            pickle.dumps(self.machine)
-        elif how == 'deepcopy':
-            copy.deepcopy(self.machine)
-        else:
-            copy.deepcopy(self.models[0])       # a model references the machine through its trigger partials
+        threads.IN_SNAPSHOT += 1
+        try:
+            if how == 'pickle':
+                pickle.dumps(self.machine)
+            elif how == 'deepcopy':
+                copy.deepcopy(self.machine)
+            else:
+                copy.deepcopy(self.models[0])       # a model references the machine through its trigger partials
+        finally:
+            threads.IN_SNAPSHOT -= 1
 
     # ---- worker side -------------------------------------------------------------------------
     def callback(self, name, args):
@@ -317,7 +332,7 @@ class Run(object):
                 continue
             ev[name] = sorted((str(src), [str(getattr(t, 'dest', None)) for t in ts]) for src, ts in e.transitions.items())
         try:
-            names = sorted(m.get_nested_state_names()) if self.case['cls'] == 'hsm' else sorted(m.states.keys())
+            names = sorted(m.get_nested_state_names()) if is_hsm(self.case) else sorted(m.states.keys())
         except Exception as e:    # pragma: no cover
             names = ['?%s' % type(e).__name__]
         self.final = {'states': [str(getattr(x, 'state', None)) for x in self.models + self.dyn],
